@@ -10,6 +10,7 @@ import ast
 import hashlib
 import json
 import os
+import re
 import signal
 import subprocess
 import sys
@@ -43,7 +44,12 @@ def gen_fn_job(ch, jid, label):
         documented = ch.shuffle(label + ".docshuf2", documented)
     style = ch.weighted(label + ".style", [("rest", 3), ("google", 1), ("numpydoc", 1)])
     inline = ch.chance(label + ".inline", 0.6)
-    kwonly = ch.chance(label + ".kwonly", 0.25)
+    kwonly = ch.chance(label + ".kwonly", 0.3)
+    if kwonly and ch.chance(label + ".kwshuffle", 0.6):
+        # keyword-only parameters may come in any order: a required one may follow a defaulted one
+        desc["params"] = ch.shuffle(label + ".kworder", desc["params"])
+        names = [p["name"] for p in desc["params"]]
+        documented = [n for n in documented] if mode in ("shuffled",) else [n for n in names if n in documented]
     ftype = ch.weighted(label + ".ftype", [("static", 3), ("self", 1.5), ("cls", 0.5)])
     if ch.chance(label + ".kwargs", 0.15):
         desc["kwargs"] = "kwargs"
@@ -127,6 +133,33 @@ def gen_docstring_job(ch, jid, label):
     return {"id": jid, "kind": "parse_docstring", "text": "\n".join(lines) + "\n"}
 
 
+BAD_DOCSTRINGS = [
+    # conversions that are *rejected* (they raise) part-way through a docstring: what they leave behind in the process
+    # must not influence later conversions
+    "Load things.\n\nArgs:\n  width (int): the width. Defaults to 3\n  classes (int): number of classes. Defaults to NUM_CLASSES\n  name (str): the name\n",
+    "Load things.\n\nArgs:\n  a (int): first. Defaults to 5\n  b (int, optional: second\n",
+    "Load things.\n\nParameters\n----------\nwidth : int\n    the width. Defaults to 3\nclasses : int\n    number of classes. Defaults to NUM_CLASSES\n",
+]
+
+
+def gen_bad_docstring_job(ch, jid, label):
+    return {"id": jid, "kind": "parse_docstring", "text": ch.choice(label + ".bad", BAD_DOCSTRINGS), "expected_to_raise": True}
+
+
+def gen_plain_docstring_job(ch, jid, label):
+    """google / numpydoc docstrings whose leading parameters have no default (sensitive to state left by earlier conversions)"""
+    n = ch.int(label + ".n", 2, 4)
+    names = ch.sample(label + ".names", render.WORDS, n)
+    style = ch.choice(label + ".style", ["google", "numpydoc"])
+    params = []
+    for i, nme in enumerate(names):
+        typ = ch.choice("%s.t%d" % (label, i), ["str", "int", "float", "bool"])
+        has = i == n - 1 and ch.chance(label + ".lastdef", 0.5)
+        params.append({"name": nme, "typ": typ, "doc": "the %s value" % nme + (". Defaults to 3" if has else ""), "default": None})
+    lines = ["Do the thing.", ""] + render._doc_lines(style, params, None, False, "")
+    return {"id": jid, "kind": "parse_docstring", "text": "\n".join(lines) + "\n", "also_emit": ch.choice(label + ".emit", ["argparse", "rest", None])}
+
+
 def gen_sync_job(ch, jid, label):
     desc = render.gen_desc(ch, "conservative", 1, 3, label)
     desc["returns"] = None
@@ -172,7 +205,7 @@ def gen_corpus(seed, prop, n):
         elif prop == "C18":
             kind = "wrap"
         else:
-            kind = ch.weighted(lab, [("fn", 5), ("cls", 2), ("hop", 3), ("doc", 1), ("sync", 1)])
+            kind = ch.weighted(lab, [("fn", 5), ("cls", 2), ("hop", 3), ("doc", 1), ("sync", 1), ("baddoc", 0.6), ("plaindoc", 1.5)])
         if kind == "fn":
             jobs.append(gen_fn_job(ch, i, lab))
         elif kind == "cls":
@@ -181,6 +214,10 @@ def gen_corpus(seed, prop, n):
             jobs.append(gen_hop_job(ch, i, lab))
         elif kind == "doc":
             jobs.append(gen_docstring_job(ch, i, lab))
+        elif kind == "baddoc":
+            jobs.append(gen_bad_docstring_job(ch, i, lab))
+        elif kind == "plaindoc":
+            jobs.append(gen_plain_docstring_job(ch, i, lab))
         elif kind == "sync":
             jobs.append(gen_sync_job(ch, i, lab))
         else:
@@ -375,7 +412,8 @@ class Replica(object):
                 self.add_violation(self.task["prop"], job, "T-no-termination", "job %d (%s) did not terminate within %d s (line_length %s)" % (
                     jid, job["kind"], JOB_TIMEOUT_S, self.task.get("line_length")), {"explicit_width": self.task.get("line_length") is not None})
             except Exception as e:
-                res = {"exception": "%s: %s" % (type(e).__name__, str(e)[:200])}
+                # object addresses in messages are not output of the conversion
+                res = {"exception": "%s: %s" % (type(e).__name__, re.sub(r"0x[0-9a-fA-F]+", "0x?", str(e))[:200])}
             finally:
                 signal.alarm(0)
             payload = core.canon(res)
@@ -406,7 +444,13 @@ class Replica(object):
                 self.c07_class(job, ir)
             return canon_ir(ir)
         if k == "parse_docstring":
-            return canon_ir(ns.parse.docstring(job["text"]))
+            ir = ns.parse.docstring(job["text"])
+            out = [canon_ir(ir)]
+            if job.get("also_emit") == "argparse":
+                out.append(ns.st.to_code(ns.emit.argparse_function(ir)))
+            elif job.get("also_emit") == "rest":
+                out.append(ns.emit.docstring(ir, docstring_format="rest"))
+            return out
         if k == "hop":
             tree = ast.parse(job["src"])
             node = tree.body[0]
@@ -888,43 +932,63 @@ def minimise(prop, item):
         if execute_replay_doc(doc)[1]:
             doc["class"] = "hash-dependence: the job alone gives different output under the two hash seeds"
             return doc
-        # 2. history dependence: keep the prefix of the schedule up to the divergent occurrence, then ddmin it
+        # 2. history dependence: one of the two occurrences differs from what the job gives on its own in a fresh
+        #    process.  Find which, keep the prefix of that replica's schedule up to the occurrence, then ddmin it.
         jobs = item["jobs"]
         dv = item["dv"]
-        rep = rb if not dv["within_one_replica"] else ra
-        sched = rep["schedule"]
-        # cut after the occurrence that differed
-        occ_needed = dv["other"][2]
-        cnt, cut = -1, len(sched)
-        for i, jid in enumerate(sched):
-            if jid == job["id"]:
-                cnt += 1
-                if cnt == occ_needed:
-                    cut = i + 1
-                    break
-        prefix = sched[:cut]
 
-        def mk(prefix):
+        def mk(rep, prefix):
             used = sorted(set(prefix) | {job["id"]})
             return {"property": prop, "engine": "replica", "expect_sig": v["sig"], "detail": v["detail"], "seed": item["seed"], "job_id": job["id"],
                     "jobs": [j for j in jobs if j["id"] in used],
                     "replicas": [{"rid": 0, "hashseed": rep["hashseed"], "line_length": None, "schedule": [job["id"]]},
                                  {"rid": 1, "hashseed": rep["hashseed"], "line_length": None, "schedule": prefix}]}
 
-        best = prefix
-        if not execute_replay_doc(mk(best))[1]:
-            doc = mk(sched)
-            doc["class"] = "history dependence (not minimised)"
+        def prefix_upto(rep, occ_needed):
+            cnt = -1
+            for i, jid in enumerate(rep["schedule"]):
+                if jid == job["id"]:
+                    cnt += 1
+                    if cnt == occ_needed:
+                        return rep["schedule"][: i + 1]
+            return list(rep["schedule"])
+
+        chosen = None
+        for rep, (_dig, _rid, occ) in ((rb, dv["other"]), (ra, dv["ref"])):
+            pre = prefix_upto(rep, occ)
+            if execute_replay_doc(mk(rep, pre))[1]:
+                chosen = (rep, pre)
+                break
+        if chosen is None:
+            doc = mk(rb, list(rb["schedule"]))
+            doc["class"] = "history dependence (could not be reduced to one replica against a fresh process)"
+            doc["replicas"] = [{"rid": 0, "hashseed": ra["hashseed"], "line_length": None, "schedule": list(ra["schedule"])},
+                               {"rid": 1, "hashseed": rb["hashseed"], "line_length": None, "schedule": list(rb["schedule"])}]
+            doc["jobs"] = jobs
             return doc
-        i = len(best) - 2
-        attempts = 0
-        while i >= 0 and attempts < 40:
-            cand = best[:i] + best[i + 1:]
-            attempts += 1
-            if execute_replay_doc(mk(cand))[1]:
-                best = cand
-            i -= 1
-        doc = mk(best)
+        rep, best = chosen
+        # ddmin over the conversions that precede the divergent occurrence (the last element is the occurrence itself)
+        head, last = best[:-1], best[-1:]
+        attempts, gran = 0, 2
+        while len(head) >= 1 and attempts < 48:
+            chunk = max(1, len(head) // gran)
+            reduced = False
+            for start in range(0, len(head), chunk):
+                cand = head[:start] + head[start + chunk:]
+                attempts += 1
+                if execute_replay_doc(mk(rep, cand + last))[1]:
+                    head = cand
+                    gran = max(gran - 1, 2)
+                    reduced = True
+                    break
+                if attempts >= 48:
+                    break
+            if not reduced:
+                if chunk == 1:
+                    break
+                gran = min(len(head), gran * 2)
+        best = head + last
+        doc = mk(rep, best)
         doc["class"] = "history dependence: the job gives a different output after the listed earlier conversions in the same process"
         return doc
     rep = item["rep"]
